@@ -65,7 +65,7 @@ Proof.
   destruct Ca as [->|[->|[->| ->]]], Cc as [->|[->|[->|[->| ->]]]]; reflexivity.
 Qed.
 
-Hypothesis WOK : forall_bits 20 (fun w => implb (deleted_gen (getw w) 0 0) (simple_ok (cur_gen (getw w)))) = true.
+Hypothesis WOK : forall w, length w = 20%nat -> implb (deleted_gen (getw w) 0 0) (simple_ok (cur_gen (getw w))) = true.
 
 Definition deleted (X : img) (q : px) : bool := X q && negb (keep (pat X q)).
 Definition par_step (X : img) : img := fun q => X q && keep (pat X q).
@@ -84,9 +84,8 @@ Proof. unfold deleted, deleted_gen. rewrite pat_shift. reflexivity. Qed.
 Lemma window_simple X p : deleted X p = true -> simple_ok (cur_gen (getX X p)) = true.
 Proof.
   intros HD.
-  pose proof (forall_bits_spec 20 _ WOK (window X p)) as H.
   assert (L : length (window X p) = 20%nat) by (unfold window; rewrite map_length, seq_length; reflexivity).
-  specialize (H L). cbn beta in H.
+  pose proof (WOK (window X p) L) as H.
   rewrite (deleted_gen_ext0 (getw (window X p)) (getX X p)) in H by (intros; apply window_get; auto).
   rewrite (cur_gen_ext (getw (window X p)) (getX X p)) in H by (intros; apply window_get; auto).
   rewrite <- deleted_center, HD in H. exact H.
